@@ -562,6 +562,37 @@ func checkC14(c *Ctx, n int) {
 			}
 			bad := []string{"[unterminated", "no equals sign here", "[]", "[  ]", "k = \"unterminated", "k = \"bad\\q\"", "= v"}[c.Rng.Intn(7)]
 			at := c.Rng.Intn(len(lines) + 1)
+			if c.Rng.Intn(2) == 0 {
+				// a fault of meaning instead of syntax: an entry of the global section (first line of the
+				// file) whose value the option it names cannot take
+				var cands []string
+				for _, grp := range allGroups(real.p.Command) {
+					for _, o := range grp.Options() {
+						code := real.optCode(o)
+						name := o.Field().Name
+						if reflectTag(o, "no-ini") != "" || code[0] == 'F' {
+							continue
+						}
+						switch {
+						case len(o.Choices) > 0:
+							cands = append(cands, name+" = zz-not-a-choice")
+						case strings.HasPrefix(code, "i") || strings.HasPrefix(code, "u") || strings.HasPrefix(code, "f") || code == "Lint" || code == "Pint":
+							cands = append(cands, name+" = 1!2")
+						case code == "bool":
+							cands = append(cands, name+" = maybe")
+						case code == "dur":
+							cands = append(cands, name+" = 5parsecs")
+						}
+					}
+				}
+				if real.p.Options&flags.IgnoreUnknown == 0 {
+					cands = append(cands, "zzNoSuchOption = 1")
+				}
+				if len(cands) > 0 {
+					bad = cands[c.Rng.Intn(len(cands))]
+					at = 0
+				}
+			}
 			lines = append(lines[:at:at], append([]string{bad}, lines[at:]...)...)
 			text := strings.Join(lines, "\n") + "\n"
 			cc := *cs
